@@ -179,12 +179,16 @@ def run(tier, seed, replay, keep):
         passes = [(i, sz, None) for i, sz in enumerate(sizes(tier))]
         if alt_tmp:
             passes += [(len(sizes(tier)) + i, sz, alt_tmp) for i, sz in enumerate(sizes(tier)[:4])]
+        # ... and with -rapid.log (rapid's own eager logger; the save must be the same single publication)
+        passes += [(2 * len(sizes(tier)) + i, sz, "log") for i, sz in enumerate(sizes(tier)[1:4])]
         with open(trace_path, "w") as out:
             for i, (lines, lineN, words), tmpdir in passes:
                 name = names[i % len(names)]
                 d = os.path.join(wd, f"st{i}")
                 os.makedirs(d)
-                spec = json.dumps({"name": name, "lines": lines, "lineN": lineN, "words": words, "killAt": 0})
+                spec = json.dumps({"name": name, "lines": lines, "lineN": lineN, "words": words, "killAt": 0, "log": tmpdir == "log"})
+                if tmpdir == "log":
+                    tmpdir = None
                 so = os.path.join(wd, f"strace{i}.txt")
                 cmd = ["strace", "-f", "-y", "-s", "0", "-o", so, "-e", "trace=" + SYSCALLS, binary, "-test.run", "^TestVerifChild$",
                        "-test.timeout", "0", "-verif.child", spec]
@@ -224,7 +228,7 @@ def run(tier, seed, replay, keep):
         for i, (lines, lineN, words) in enumerate(sizes(tier)):
             mx = 50 if tier == "quick" else 340
             crash_scen.append({"id": f"c16-crash-{i}-{lines}x{lineN}-{words}w", "name": names[i % len(names)], "lines": lines, "lineN": lineN,
-                               "words": words, "max": mx})
+                               "words": words, "max": mx, "log": i % 3 == 1})
         parts = props.chunks(crash_scen, min(len(crash_scen), props.NCPU))
         import concurrent.futures as cf
         paths = []
